@@ -691,3 +691,62 @@ def extract_positional_index():
                "end NitroVerif.Generated\n") % (body_term, "true" if ok else "false")
     changed = write_if_changed(os.path.join(GEN, "PosIndex.lean"), content)
     return ok, note + (" (file rewritten)" if changed else "")
+
+
+# ---------------------------------------------------------------------------------------------------------
+# C15: the layout constants of the usage text - the arguments of the two calls of format_padded.
+
+def _calls_of(root, callee):
+    return _find(root, lambda x: x.get("kind") == "CallExpr" and x.get("inner") and
+                 _find(x["inner"][0], lambda y: (y.get("referencedDecl") or {}).get("name") == callee, []), [])
+
+
+def _lit(n):
+    while n.get("kind") in ("ImplicitCastExpr", "ParenExpr"):
+        n = n["inner"][0]
+    if n.get("kind") != "IntegerLiteral":
+        raise ValueError("expected an integer literal, found %s" % n.get("kind"))
+    return int(n["value"])
+
+
+def extract_usage_layout():
+    """Generated/UsageLayout.lean from base::format and parser::usage.  Returns (ok, note)."""
+    vals, ok = {"entryPad": 0, "entryWidth": 0, "synBase": 0, "synWidth": 0}, True
+    try:
+        objs, _ = ast_dump("src/options/parser.cpp", "nitro::options::base::format")
+        fm = [o for o in objs if o.get("kind") == "CXXMethodDecl" and o.get("name") == "format"]
+        calls = [c for m in fm for c in _calls_of(m, "format_padded")]
+        if len(calls) != 1 or len(calls[0]["inner"]) != 5:
+            raise ValueError("%d calls of format_padded in base::format" % len(calls))
+        vals["entryPad"], vals["entryWidth"] = _lit(calls[0]["inner"][3]), _lit(calls[0]["inner"][4])
+        objs, _ = ast_dump("src/options/parser.cpp", "nitro::options::parser::usage")
+        um = [o for o in objs if o.get("kind") == "CXXMethodDecl" and o.get("name") == "usage"]
+        calls = [c for m in um for c in _calls_of(m, "format_padded")]
+        if len(calls) != 1 or len(calls[0]["inner"]) != 5:
+            raise ValueError("%d calls of format_padded in parser::usage" % len(calls))
+        pad = calls[0]["inner"][3]
+        while pad.get("kind") in ("ImplicitCastExpr", "ParenExpr"):
+            pad = pad["inner"][0]
+        if pad.get("kind") != "BinaryOperator" or pad.get("opcode") != "+":
+            raise ValueError("the synopsis padding is not a sum")
+        a, b = pad["inner"]
+        mem = _find(b, lambda x: x.get("kind") == "MemberExpr", [])
+        if [m.get("name") for m in mem][:2] != ["size", "app_name_"]:
+            raise ValueError("the synopsis padding is not <literal> + app_name_.size()")
+        vals["synBase"], vals["synWidth"] = _lit(a), _lit(calls[0]["inner"][4])
+        note = "usage layout: entries format_padded(.., %d, %d); synopsis format_padded(.., %d + |app|, %d)" % (
+            vals["entryPad"], vals["entryWidth"], vals["synBase"], vals["synWidth"])
+    except (ValueError, KeyError, IndexError, json.JSONDecodeError) as e:
+        ok = False
+        note = "usage layout: extractor no longer recognises the code: " + str(e)
+    content = ("-- written by vlib/extract.py from include/nitro/options/option/base.hpp and src/options/parser.cpp on every run\n"
+               "namespace NitroVerif.Generated\n"
+               "def entryPadSrc : Int := %d\n"
+               "def entryWidthSrc : Int := %d\n"
+               "def synopsisPadBaseSrc : Nat := %d\n"
+               "def synopsisWidthSrc : Int := %d\n"
+               "def usageLayoutExtracted : Bool := %s\n"
+               "end NitroVerif.Generated\n") % (vals["entryPad"], vals["entryWidth"], vals["synBase"], vals["synWidth"],
+                                                 "true" if ok else "false")
+    changed = write_if_changed(os.path.join(GEN, "UsageLayout.lean"), content)
+    return ok, note + (" (file rewritten)" if changed else "")
